@@ -1358,27 +1358,46 @@ func (en *Engine) NilTasks(n, q, rounds int) {
 	defer en.Finish(fam, r)
 	r.Start(en.longTO())
 	for round := 0; round < rounds; round++ {
-		var nils []*Task
+		shownBefore := r.RawLastPanic()
+		var accepted []*Task
+		rejected := 0
 		for l := 0; l < n; l++ {
 			idle(r)
 			t := r.NewNilTask()
-			nils = append(nils, t)
-			if res := r.Push(t, l); res != "ok" {
-				r.Violation("progress: PushTask(nil, %d) returned %s", l, res)
-			} else {
-				// a nil task cannot record its own start: it is entered here, at acceptance (the context is live, it
-				// will be taken); that the lane really dealt with it is checked below through Status()
-				r.MarkNilRan(t)
+			switch res := r.Push(t, l); res {
+			case "ok":
+				accepted = append(accepted, t)
+				r.NilAccepted(t)
+			case "rej":
+				rejected++ // refused with an error: a rejected task - never started, no effect (checked below)
+			default:
+				r.Violation("progress: PushTask(nil, %d) on a live lane with room returned %s (neither accepted nor refused)", l, res)
 			}
 		}
-		// the lane has dealt with them when nothing is pending and LastPanic shows the dereference
-		want := nils[0].pv
-		if !WaitUntil(LiveBound, func() bool { p, lp := r.Status(); return p == 0 && lp == want }) {
-			p, lp := r.Status()
-			r.Violation("nil-task: %d nil tasks accepted (one per lane): PendingTask=%d LastPanic id=%d (want 0 and the nil-dereference panic) after %v", n, p, lp, LiveBound)
+		en.E.Count("nil_tasks_accepted", len(accepted))
+		en.E.Count("nil_tasks_rejected", rejected)
+		// at rest again: an accepted nil task has been taken and "started", a rejected one left no trace
+		if last, ok := r.RawPendingSettles(0, LiveBound); !ok {
+			r.Violation("nil-task: %d nil tasks accepted, %d rejected (one per lane): PendingTask=%d does not return to 0 within %v", len(accepted), rejected, last, LiveBound)
 			en.Shutdown(r, false)
 			return
 		}
+		time.Sleep(300 * time.Microsecond) // the store of a panic value follows the hand-over
+		// what the accepted nil tasks did is only visible through LastPanic: nothing new = started and returned (or the
+		// same value again), a new value = started and panicked with it (the lane's nil dereference, or whatever the
+		// implementation substitutes). Either is "the value of one of the panics that occurred".
+		shown := r.RawLastPanic()
+		if len(accepted) == 0 {
+			if !sameValue(shown, shownBefore) {
+				r.Violation("nil-task: every PushTask(nil) was refused, yet LastPanic changed to %T", shown)
+			}
+		} else {
+			panicked := shown != nil && (!sameValue(shown, shownBefore) || r.pvID(shown) == accepted[0].pv)
+			for _, t := range accepted {
+				r.ResolveNil(t, panicked, shown)
+			}
+		}
+		r.Status()
 		// ordinary tasks on the same lanes
 		var ts []*Task
 		for l := 0; l < n; l++ {
@@ -1392,7 +1411,7 @@ func (en *Engine) NilTasks(n, q, rounds int) {
 		}
 		for _, t := range ts {
 			if !WaitUntil(LiveBound, func() bool { return r.Finished(t) }) {
-				r.Violation("progress: after nil tasks were accepted on every lane, accepted task %d was not started within %v (context live)", t.ID, LiveBound)
+				r.Violation("progress: after nil tasks were pushed to every lane (%d accepted, %d refused), accepted task %d was not started within %v (context live)", len(accepted), rejected, t.ID, LiveBound)
 				en.Shutdown(r, false)
 				return
 			}
